@@ -251,6 +251,166 @@ def repo_status(ctx):
     return out
 
 
+# ---------------------------------------------------------------------------- constants (DESIGN §4.1, HOWTO §6)
+
+_EX_START = re.compile(r"^\s*Example\s+(\w+)")
+_EX_END = re.compile(r"(eq_refl|Qed|Defined)\s*\.\s*(\(\*.*\*\)\s*)?$")
+
+
+def _example_spans(lines):
+    """[(name, first_line_index, last_line_index)] of the Example sentences of an Agree file."""
+    spans, i = [], 0
+    while i < len(lines):
+        m = _EX_START.match(lines[i])
+        if m:
+            j = i
+            while j < len(lines) - 1 and not _EX_END.search(lines[j]):
+                j += 1
+            spans.append((m.group(1), i, j))
+            i = j + 1
+        else:
+            i += 1
+    return spans
+
+
+def consts_check(ctx, pid=None, max_report=12):
+    """Regenerate the numeric constants of the working tree and prove them equal to the Model's.
+
+    (a) builds tools/gen_consts and harness/consts_defaults (binaries in <ctx.work>/bin),
+    (b) runs them on ctx.repo -> <ctx.work>/genrun/Consts.v (+ consts.json side-car),
+    (c) compiles it as VerifRun.Consts,
+    (d) compiles a private copy of coq/Agree/<pid>.v (one `Example` per constant, proofs by
+        evaluation) against the Model .vo files of the main tree and the regenerated constants.
+    Returns (ok, cause, info).  cause holds one 'theorem:consts-agree:<ExampleName>' per Example
+    that no longer checks (the failing Example is blanked out and the file re-compiled, so several
+    moved constants are all named), or 'theorem:consts-agree:<file>:<line>' / 'corr:gen_consts ...'
+    when something else breaks.  info: consts_regenerated, consts_go, consts_c, consts_defaults,
+    consts_tied, consts_failed, agree_file, wall_s.  Extend the check's `cause` list with the
+    returned cause: the verdict logic then searches for a failing input and otherwise prints
+    VIOLATION ... no-failing-input-found naming these entries."""
+    pid = pid or ctx.pid
+    t0 = time.time()
+    cause = []
+    info = {"consts_regenerated": 0, "consts_go": 0, "consts_c": 0, "consts_defaults": 0, "consts_tied": 0,
+            "consts_failed": [], "agree_file": None, "notes": []}
+
+    def done(ok):
+        info["wall_s"] = round(time.time() - t0, 2)
+        ctx.log("[consts] regenerated=%d (go %d, c %d, defaults %d) tied=%d failed=%d  %.1fs" % (
+            info["consts_regenerated"], info["consts_go"], info["consts_c"], info["consts_defaults"],
+            info["consts_tied"], len(info["consts_failed"]), info["wall_s"]))
+        return ok, cause, info
+
+    agree_src = os.path.join(COQ, "Agree", pid + ".v")
+    has_agree = os.path.exists(agree_src)
+    bindir = os.path.join(ctx.work, "bin")
+    gen = os.path.join(ctx.work, "genrun")
+    shutil.rmtree(gen, ignore_errors=True)
+    os.makedirs(bindir, exist_ok=True)
+    os.makedirs(gen, exist_ok=True)
+
+    # (a) translators, built from source on every run (go build is incremental)
+    gc_bin = os.path.join(bindir, "gen_consts")
+    gc_dir = os.path.join(VERIF, "tools", "gen_consts")
+    rc, log = 0, ""
+    # the translator depends only on its own source (not on the repository): rebuild when that is newer
+    if not os.path.exists(gc_bin) or os.path.getmtime(gc_bin) < max(os.path.getmtime(f) for f in glob.glob(os.path.join(gc_dir, "*"))):
+        rc, log = sh(["go", "build", "-o", gc_bin, "."], cwd=gc_dir, timeout=600)
+    if rc != 0:
+        ctx.log("[consts] gen_consts build failed:\n" + log[-2000:])
+        cause.append("corr:gen_consts does not build")
+        return done(False)
+    d_bin, dlog = go_build(ctx, "consts_defaults")
+    if d_bin is None:
+        # a Default*Config constructor changed shape: the dflt_* definitions are absent from this run's
+        # Consts.v, so exactly the Examples that use them fail below (and are named)
+        info["notes"].append("harness/consts_defaults does not build against the working tree: " + dlog[-400:])
+        ctx.log("[consts] consts_defaults build failed (dflt_* constants absent this run):\n" + dlog[-1500:])
+
+    # (b) regenerate
+    consts_v = os.path.join(gen, "Consts.v")
+    side = os.path.join(gen, "consts.json")
+    rc, log = sh([gc_bin, "-repo", ctx.repo, "-out", consts_v, "-json", side, "-cinc", os.path.join(VERIF, "cbpf", "include")],
+                 cwd=gen, timeout=180)
+    if rc != 0 or not os.path.exists(consts_v):
+        ctx.log("[consts] gen_consts failed:\n" + log[-2000:])
+        cause.append("corr:gen_consts failed on the working tree")
+        return done(False)
+    try:
+        sc = json.load(open(side))
+        info["consts_go"], info["consts_c"] = sc.get("go", 0), sc.get("c", 0)
+        if sc.get("skipped"):
+            info["notes"].append("gen_consts skipped %d declarations (see %s)" % (len(sc["skipped"]), side))
+    except Exception as ex:
+        info["notes"].append("side-car unreadable: %s" % ex)
+    if d_bin:
+        frag, dside = os.path.join(gen, "defaults.v.frag"), os.path.join(gen, "defaults.json")
+        rc, log = sh([d_bin, "-out", frag, "-json", dside], cwd=gen, timeout=120)
+        if rc == 0 and os.path.exists(frag):
+            with open(consts_v, "a") as f:
+                f.write(open(frag).read())
+            try:
+                info["consts_defaults"] = json.load(open(dside)).get("defaults", 0)
+            except Exception:
+                pass
+        else:
+            info["notes"].append("consts_defaults exited %d: %s" % (rc, log[-300:]))
+            ctx.log("[consts] consts_defaults failed:\n" + log[-1500:])
+    info["consts_regenerated"] = info["consts_go"] + info["consts_c"] + info["consts_defaults"]
+
+    # (c) the regenerated file is a Coq library of its own, bound to the logical root VerifRun
+    rc, out = sh(["coqc", "-Q", gen, "VerifRun", consts_v], cwd=gen, timeout=300)
+    if rc != 0:
+        ctx.log("[consts] regenerated Consts.v does not compile:\n" + out[-1500:])
+        cause.append("theorem:consts-agree:Consts.v (regenerated file does not compile)")
+        return done(False)
+
+    # (d) agreement with the Model's constants
+    if not has_agree:
+        return done(True)
+    info["agree_file"] = "coq/Agree/%s.v" % pid
+    src = open(agree_src).read()
+    bad = re.findall(r"\b(Admitted|admit|Axiom|Axioms|Parameter|Parameters|Conjecture|Variable|Hypothesis|Context)\b", strip_comments(src))
+    if bad:
+        cause.append("theorem:consts-agree:forbidden-constructs %s" % ",".join(sorted(set(bad))))
+    lines = src.split("\n")
+    spans = _example_spans(lines)
+    info["consts_tied"] = len(spans)
+    name = "Agree" + pid
+    priv = os.path.join(gen, name + ".v")
+    deadline = time.time() + 600
+    for attempt in range(max_report + 1):
+        open(priv, "w").write("\n".join(lines))
+        rc, out = sh(["coqc", "-Q", COQ, "Verif", "-Q", gen, "VerifRun", "-w", "-notation-overridden", priv], cwd=gen, timeout=300)
+        if rc == 0:
+            break
+        m = re.search(r'File "[^"]*%s\.v", line (\d+), characters [^\n]*\n((?:.*\n?){0,6})' % re.escape(name), out)
+        if not m:
+            cause.append("theorem:consts-agree:%s.v (coqc exited %d: %s)" % (pid, rc, out.strip()[-300:].replace("\n", " ")))
+            break
+        ln = int(m.group(1)) - 1
+        msg = " ".join(m.group(2).split())[:300]
+        hit = [sp for sp in spans if sp[1] <= ln <= sp[2]]
+        if not hit:
+            cause.append("theorem:consts-agree:%s.v:%d (%s)" % (pid, ln + 1, msg))
+            break
+        ex_name, a, b = hit[0]
+        cause.append("theorem:consts-agree:%s" % ex_name)
+        info["consts_failed"].append({"example": ex_name, "line": a + 1, "error": msg})
+        ctx.log("[consts] Example %s (coq/Agree/%s.v:%d) no longer checks: %s" % (ex_name, pid, a + 1, msg[:200]))
+        for k in range(a, b + 1):
+            lines[k] = ""
+        if attempt == max_report - 1 or time.time() > deadline:
+            info["notes"].append("stopped after %d failing Examples; more may fail" % len(info["consts_failed"]))
+            break
+    for ext in (".vo", ".vok", ".vos", ".glob"):
+        try:
+            os.remove(priv[:-2] + ext)
+        except OSError:
+            pass
+    return done(not cause)
+
+
 # ---------------------------------------------------------------------------- verdicts
 
 def load_known(pid):
@@ -267,6 +427,7 @@ def classify_rows(ctx, spec, rows, outdir, stream, known):
     for row in rows:
         case, mm, ir, ic, mr, mc = row[:6]
         markers = row[6:]
+        hit = None
         if ir:
             clause = ic - 1
             agree = (mm == 0 or mm > ir)
@@ -284,7 +445,10 @@ def classify_rows(ctx, spec, rows, outdir, stream, known):
                                           "clause_name": spec.get("clauses", {}).get(clause, str(clause)),
                                           "model_rejected_same": same, "tie1_agrees_upto": agree, "markers": markers,
                                           "stream": stream, "outdir": outdir})
-        if mm and not (ir and mm > ir):
+        # a tie-1 mismatch AFTER an unexplained rejection adds nothing (the case is a violation already);
+        # after a rejection explained by a known finding it is still a disagreement between code and
+        # Model (the faithful Model follows the code through its known defects) and must be reported
+        if mm and not (ir and mm > ir and not hit):
             res["mismatch"].append({"case": case, "step": mm, "stream": stream, "outdir": outdir})
         if not ir and not mm:
             res["marker_only"] += 1
@@ -318,6 +482,7 @@ TRUSTED_COMMON = [
     "no extraction: the Model is evaluated inside Coq on the cases the Go driver wrote",
     "hand-written Model of the Go/C code, tied to the working tree by the differential run of this check (sampled, not a proof about the code)",
     "Go harness driver (generators, canonicalisation, Coq-term printer), Go toolchain 1.25, python orchestrator lib/verif.py",
+    "constants translator tools/gen_consts (go/types constant evaluation; clang -dM -E + a C integer-expression evaluator) and harness/consts_defaults (reflection over the values the real Default*Config constructors return); hand-written coq/Agree/<PID>.v states which Model literal corresponds to which source constant",
 ]
 
 
@@ -362,6 +527,11 @@ def standard_check(ctx, spec):
         model_ok, log2 = coq_make(spec["check_vo"])
         if not model_ok:
             ctx.log("[coq] model build failed:\n" + log2[-1500:])
+
+    # 1b. constants regenerated from the working tree agree with the Model's (coq/Agree/<PID>.v)
+    cok, ccause, cinfo = consts_check(ctx)
+    cause.extend(ccause)
+    ctx.notes.extend("consts: " + n for n in cinfo["notes"])
 
     # 2. harness
     binp, blog = go_build(ctx, spec["driver"])
@@ -461,9 +631,16 @@ def standard_check(ctx, spec):
 
     # 5. evidence
     nth = len(pc["theorems"]) if pc else 0
+    ntied, ntied_ok = cinfo["consts_tied"], cinfo["consts_tied"] - len(cinfo["consts_failed"])
+    if ccause and not cinfo["consts_failed"]:
+        ntied_ok = 0                      # the agreement file as a whole did not check
     cov = {
-        "obligations": max(nth, 1), "discharged": nth if (pc and pc["ok"]) else 0,
-        "checker_cmd": "make -C coq %s && coqc -Q coq Verif coq/%s  (Print Assumptions captured)" % (" ".join(targets), spec["props"]),
+        "obligations": max(nth + ntied, 1), "discharged": (nth if (pc and pc["ok"]) else 0) + ntied_ok,
+        "consts_tied": ntied, "consts_regenerated": cinfo["consts_regenerated"],
+        "consts": {k: cinfo[k] for k in ("consts_go", "consts_c", "consts_defaults", "consts_failed", "agree_file", "wall_s")},
+        "checker_cmd": "make -C coq %s && coqc -Q coq Verif coq/%s  (Print Assumptions captured)%s" % (
+            " ".join(targets), spec["props"],
+            "; tools/gen_consts + harness/consts_defaults -> genrun/Consts.v; coqc -Q coq Verif -Q genrun VerifRun coq/Agree/%s.v" % pid if ntied else ""),
         "trusted_base": TRUSTED_COMMON + spec.get("trusted_extra", []),
         "theorems": pc["theorems"] if pc else [], "examples": pc["examples"] if pc else [],
         "print_assumptions_closed": pc["closed"] if pc else 0, "axioms": pc["axioms"] if pc else [],
